@@ -14,4 +14,17 @@ TEXTS = {
           "Stores of an error into a captured/escaping variable count as consumption (may miss an overwrite-before-read through memory).",
   "technique": "SSA error-use analysis + CFG must-pass-through pairing + deferred-overwrite rule + typestate on SSA guards (go/ssa, go/cfg)",
  },
+ "C13": {
+  "text": "Decides structural necessary conditions of bucket containment: R-ABSVALID evaluates the guards of normalpath.NormalizeAndValidate three-valued over "
+          "a bounded-exhaustive enumeration of cleaned slash paths (alphabet {a . /}, length <= 6) partitioned into '.', '..', '../x', rooted and name-first; no "
+          "escaping or rooted member may reach the success return (this is what found the accepted bare '..'); R-MUSTVALIDATE runs an interprocedural SSA taint from "
+          "the raw path/prefix parameter of every Get/Stat/Walk/Put/Delete/DeleteAll (and GetFile/StatFileInfo) method of every type implementing storage.ReadBucket, "
+          "storage.WriteBucket or bufmodule.ModuleReadBucket: the raw value may only reach a sanitizer or the same method of a delegate interface, never a map key, Mapper, "
+          "os/fs/filepathext call, nor be joined/mapped and then delegated; every sanitizer call site uses its result only on the nil edge of the error test; archive entry "
+          "names and plugin-chosen names reach only the sanitizing helper, bucket API or error text; the disk bucket joins only sanitizer results under its root and Walk "
+          "re-validates. Covers every spelling and every operation of every bucket kind at once.",
+  "note": "Not decided: symlink resolution at run time (symlink-following buckets follow links by design), OS behaviour for exotic names, Windows volume semantics beyond the stated IsAbs model. "
+          "Taint inlining bound 4; an exceeded bound is reported as undecided (fails).",
+  "technique": "abstract evaluation of guards over a finite path partition + interprocedural SSA taint with sanitizers (go/ssa, go/cfg)",
+ },
 }
